@@ -38,6 +38,20 @@ Definition parse_query (params : list N) : list (list N * list N) :=
 Definition form_urlencoded_parse (data : list N) : option (list (list N * list N)) :=
   if utf8_valid data then Some (parse_query (filter_ascii_control data)) else None.
 
+(* ---- the domain of the map-level round-trip theorems of C17 (decidable, evaluated by the model runner) ---- *)
+Definition enc_pair (kv : list N * list N) : list N := encode_uri (fst kv) ++ [61] ++ encode_uri (snd kv).
+(* the query text of a list of fields: name=value pairs joined by ampersands *)
+Definition build_query (m : list (list N * list N)) : list N := join_with 38 (map enc_pair m).
+
+Definition field_ok_b (kv : list N * list N) : bool :=
+  forallb (fun c => N.ltb c 256) (fst kv) && forallb (fun c => N.ltb c 256) (snd kv) && negb (beqs (fst kv) []) && negb (in_F1 (fst kv)) && negb (in_F1 (snd kv)).
+Fixpoint distinct_keys (m : list (list N * list N)) : bool :=
+  match m with [] => true | kv :: r => negb (existsb (fun kv' => beqs (fst kv') (fst kv)) r) && distinct_keys r end.
+
+Definition form_text_ok (q : list N) : bool := utf8_valid q && beqs (filter_ascii_control q) q.
+Definition map_ok (m : list (list N * list N)) : bool :=
+  match m with [] => false | _ => forallb field_ok_b m && distinct_keys m end.
+
 (* ---- Header::parse_header ---- *)
 Definition parse_header (raw : list N) : option header :=
   let e := truncate_nl_cr (filter_ascii_control raw) in
